@@ -494,6 +494,9 @@ impl<'h> Machine<'h> {
             }
             if after.streams.iter().any(|&s| s != self.stream) {
                 self.rep.find("C19", "running-false-but-old-stream", format!("{when}: tick returned running=false but the snapshot holds items of stream {:?}, current stream is {}", after.streams, self.stream));
+                // the same observation read as C12: the run over the new stream has completed (the matcher is
+                // idle), so the snapshot may no longer be the one from before the restart
+                self.rep.find("C12", "old-stream-snapshot-after-new-run-completed", format!("{when}: the matcher is idle after the restart (tick returned running=false) but the snapshot still shows items of stream {:?}; current stream is {}", after.streams, self.stream));
             }
             if self.had_cancel || self.had_restart {
                 self.rep.label("not-running-after-cancel-or-restart");
@@ -1084,8 +1087,8 @@ pub fn op_strategy(bias: Bias) -> BoxedStrategy<Op> {
         w_inj / 3 + 1 => (any::<u8>(), any::<bool>()).prop_map(|(sel, on_thread)| Op::DropInjector { sel, on_thread }),
         w_inj / 6 + 1 => (any::<u8>(), any::<u8>()).prop_map(|(dst, src)| Op::CloneFromInjector { dst, src }),
         3 => Just(Op::UpdateConfig),
-        8 => (0u8..7).prop_map(|phase| Op::HoldRunAt { phase }),
-        4 => (0u8..7).prop_map(|phase| Op::AdvanceRunTo { phase }),
+        8 => (0u8..8).prop_map(|phase| Op::HoldRunAt { phase }),
+        4 => (0u8..8).prop_map(|phase| Op::AdvanceRunTo { phase }),
         5 => Just(Op::ReleaseRun),
         2 => (0u16..64).prop_map(|idx| Op::HoldScore { idx }),
         2 => Just(Op::ReleaseScore),
@@ -1141,6 +1144,33 @@ pub fn templates() -> Vec<History> {
     v.push(base(3, vec![push_n(2015, 3), Op::Extend { inj: 0, n: 30, text: 5, hold_at: 2 }, Op::Reparse { col: 0, edit: Edit::Replace(0) }, Op::Tick { timeout: 2 }, Op::ReleaseWriter { sel: 0 }, Op::Tick { timeout: 2 }]));
     // injector bookkeeping across restarts and timed-out ticks
     v.push(base(1, vec![Op::NewInjector, Op::CloneInjector { sel: 1 }, Op::DropInjector { sel: 0, on_thread: true }, Op::HoldRunAt { phase: 0 }, Op::Push { inj: 0, text: 1 }, Op::Tick { timeout: 0 }, Op::Restart { clear: false }, Op::Tick { timeout: 0 }, Op::NewInjector, Op::DropInjector { sel: 0, on_thread: false }, Op::ReleaseRun, Op::Tick { timeout: 2 }, Op::Restart { clear: true }, Op::NewInjector, Op::Tick { timeout: 2 }]));
+    // a queued run (its pool thread is still busy with the finished job before it) is cancelled before it starts:
+    // by a pattern edit, and - for the first run after a restart - by a pattern edit as well
+    for rep in 0..5u16 {
+        for app in [1u8, 2] {
+            v.push(base(1, vec![push_n(40, 3), Op::Reparse { col: 0, edit: Edit::Replace(rep) }, Op::Tick { timeout: 2 }, Op::HoldRunAt { phase: 7 }, push_n(5, 9), Op::Tick { timeout: 0 }, Op::Reparse { col: 0, edit: Edit::Replace(rep + 1) }, Op::Tick { timeout: 0 }, Op::Reparse { col: 0, edit: Edit::Append(app) }, Op::Tick { timeout: 0 }, Op::ReleaseRun, Op::Tick { timeout: 2 }, Op::Tick { timeout: 2 }]));
+        }
+        for clear in [false, true] {
+            v.push(base(1, vec![push_n(12, 3), Op::Reparse { col: 0, edit: Edit::Replace(rep) }, Op::Tick { timeout: 2 }, Op::HoldRunAt { phase: 7 }, push_n(5, 9), Op::Tick { timeout: 0 }, Op::Restart { clear }, Op::NewInjector, Op::Bulk { inj: 0, n: 12, text: 5 }, Op::Tick { timeout: 0 }, Op::Reparse { col: 0, edit: Edit::Append(1) }, Op::Tick { timeout: 0 }, Op::ReleaseRun, Op::Tick { timeout: 2 }, Op::Tick { timeout: 2 }]));
+        }
+    }
+    // a scan of new items that sees an item in flight is cancelled while it runs
+    for threads in [1u8, 2] {
+        for idx in [21u16, 25, 30] {
+            v.push(base(threads, vec![Op::Reparse { col: 0, edit: Edit::Replace(0) }, push_n(20, 3), Op::Tick { timeout: 2 }, Op::PushHeld { inj: 0, text: 3 }, push_n(10, 3), Op::HoldScore { idx }, Op::Tick { timeout: 0 }, Op::Reparse { col: 0, edit: Edit::Append(1) }, Op::Tick { timeout: 0 }, Op::ReleaseWriter { sel: 0 }, Op::Tick { timeout: 2 }, Op::Tick { timeout: 2 }]));
+        }
+    }
+    // the new stream's first result looks exactly like the old stream's last one (same number of items, same texts)
+    for rep in [None, Some(0u16)] {
+        for clear in [false, true] {
+            let mut ops = vec![];
+            if let Some(r) = rep {
+                ops.push(Op::Reparse { col: 0, edit: Edit::Replace(r) });
+            }
+            ops.extend([Op::Bulk { inj: 0, n: 6, text: 7 }, Op::Tick { timeout: 2 }, Op::Tick { timeout: 2 }, Op::Restart { clear }, Op::NewInjector, Op::Bulk { inj: 0, n: 6, text: 7 }, Op::Tick { timeout: 2 }, Op::Tick { timeout: 2 }]);
+            v.push(base(1, ops));
+        }
+    }
     // update_config while a run is held in each phase, then the matcher is ticked to quiescence
     for phase in [2u8, 3, 5] {
         v.push(base(2, vec![push_n(50, 3), Op::Reparse { col: 0, edit: Edit::Replace(0) }, Op::HoldRunAt { phase }, Op::Tick { timeout: 0 }, Op::UpdateConfig, Op::Tick { timeout: 2 }, Op::ReleaseRun, Op::Tick { timeout: 2 }]));
